@@ -29,13 +29,21 @@ type c03Callee struct {
 
 // callLit enters the body of a function literal value.
 func (x *c03Interp) callLit(fr *c03Frame, st *c03State, call *ast.CallExpr, fv *c03V, args []*c03V, t types.Type) []c03EV {
-	if fv.Lit == nil || fv.Env == nil || fr.depth >= 8 {
+	if fv.Lit == nil || fv.Env == nil || fr.depth >= c03MaxDepth {
 		return nil
 	}
+	active := 0
 	for f := fr; f != nil; f = f.parent {
 		if f.lit == fv.Lit {
-			return nil // recursive literal: not entered
+			active++
 		}
+	}
+	if active >= 3 {
+		return nil // recursive literal: not entered any deeper
+	}
+	restore := func(*c03State) {}
+	if active > 0 {
+		restore = c03SaveScope(st, fv.Lit)
 	}
 	info := fv.Env.info()
 	nf := &c03Frame{fi: fv.Env.fi, parent: fr, call: call, depth: fr.depth + 1, label: fv.Env.Root().Stack() + " (func literal)", lit: fv.Lit}
@@ -76,6 +84,7 @@ func (x *c03Interp) callLit(fr *c03Frame, st *c03State, call *ast.CallExpr, fv *
 					rs = append(rs, o.st.vars[n])
 				}
 			}
+			restore(o.st)
 			out = append(out, c03EV{o.st, c03ResultValue(rs, t)})
 		default:
 			x.pending = append(x.pending, o)
@@ -245,4 +254,28 @@ func (x *c03Interp) concreteCond(fr *c03Frame, st *c03State, cond ast.Expr) bool
 		}
 	}
 	return true
+}
+
+// c03SaveScope snapshots the bindings of the variables declared inside node (a function or literal that is entered
+// while already active): variables are keyed by their declaration, so the inner activation would overwrite the outer
+// one's parameters and locals. restore puts them back into a state the inner activation produced.
+func c03SaveScope(st *c03State, node ast.Node) (restore func(*c03State)) {
+	lo, hi := node.Pos(), node.End()
+	saved := map[types.Object]*c03V{}
+	for o, v := range st.vars {
+		if p := o.Pos(); lo <= p && p < hi {
+			saved[o] = v
+		}
+	}
+	return func(s *c03State) {
+		for o := range s.vars {
+			if p := o.Pos(); lo <= p && p < hi {
+				if v, ok := saved[o]; ok {
+					s.vars[o] = v
+				} else {
+					delete(s.vars, o)
+				}
+			}
+		}
+	}
 }
